@@ -56,3 +56,17 @@ Definition slot_size (n : Z) (im : Q) : Q := secs im / inject_Z n.
 Definition b64_witness_both : bool :=
   let t := mkf 200 0 in let im := mkf 5 0 in let mm := mkf 0 0 in
   gen_can_run_atomic_service F64 5 (iota 9) t im mm && gen_can_run_atomic_service F64 6 (iota 9) t im mm.
+
+(* the statement as executed, at full strength: at most one authorised runner, in doubles *)
+Definition at_most_one_authorised_b64 : Prop := forall ids r1 r2 t im mm,
+  PrimFloat.ltb PrimFloat.zero im = true -> PrimFloat.leb PrimFloat.zero mm = true ->
+  PrimFloat.leb PrimFloat.zero t = true ->
+  In r1 ids -> In r2 ids -> r1 <> r2 ->
+  gen_can_run_atomic_service F64 r1 ids t im mm = true ->
+  gen_can_run_atomic_service F64 r2 ids t im mm = true -> False.
+
+(* margin in seconds as the code computes it; the half-slot fallback test of the next-start form *)
+Definition b64_margin_secs (mm : PrimFloat.float) : PrimFloat.float := mul F64 mm (ofZ F64 60).
+Definition b64_fallback_taken (i n : Z) (im mm : PrimFloat.float) : bool :=
+  let size := div F64 (mul F64 im (ofZ F64 60)) (ofZ F64 n) in
+  leb F64 (sub F64 (mul F64 (ofZ F64 (i + 1)%Z) size) (b64_margin_secs mm)) (mul F64 (ofZ F64 i) size).
